@@ -5,8 +5,8 @@ use educe::Educe;
 use core::cmp::Ordering;
 #[derive(Educe)]
 #[educe(PartialEq)]
-pub enum T { C }
-pub fn values() -> Vec<T> { vec![T::C] }
-pub fn show(x: &T) -> String { #[allow(unused_variables)] match x { T::C => format!("C()") } }
-pub fn o_eq(a: &T, b: &T) -> bool { match (a, b) { (T::C, T::C) => true } }
+pub struct T;
+pub fn values() -> Vec<T> { vec![T] }
+pub fn show(x: &T) -> String { #[allow(unused_variables)] match x { T => format!("T()") } }
+pub fn o_eq(a: &T, b: &T) -> bool { match (a, b) { (T, T) => true } }
 pub fn run(out: &mut Out) { let vs = values(); for a in &vs { for b in &vs { let e = o_eq(a, b); out.check((a == b) == e, "eq_18", "eq", || format!("{} == {} expected {}", show(a), show(b), e)); out.check((a != b) == !e, "eq_18", "ne", || format!("{} != {} expected {}", show(a), show(b), !e)); } } }
